@@ -98,12 +98,20 @@ pub fn gen_f64(r: &mut Rng) -> f64 {
         24 => -f64::from_bits(1),
         25 => 1e21,
         26 => 1e-7,
+        27 => {
+            // The infinities (NaN is left out: it is not equal to itself, so "reads back equal" is undefined for it).
+            if r.chance(1, 2) {
+                f64::INFINITY
+            } else {
+                f64::NEG_INFINITY
+            }
+        }
         _ => f64::from_bits(r.next_u64()),
     };
-    if x.is_finite() {
-        x
-    } else {
+    if x.is_nan() {
         1.5
+    } else {
+        x
     }
 }
 
